@@ -230,3 +230,66 @@ pub fn retain(line: &str) -> String {
     s.push_str(&bits(paths.iter().map(|p| fs.is_match(p))));
     s
 }
+
+/// C15 `tb` stream: plain benchmarks and groups registered in the GIVEN order
+/// (`#E b/<module path>/<raw>/<display>/<options|-> .. g/..` — benchmarks are
+/// handed to the tree in their order, then the groups in theirs, as
+/// `run_action` does), the tree built by the crate (`tree_dump`), and the
+/// options every benchmark resolves to when the tree is walked: the groups
+/// above it (as attached by the crate) through the crate's `overwrite`.
+/// Display names are unique per case (they identify the entries in the dump).
+pub fn tb(line: &str) -> String {
+    use std::collections::HashMap;
+    let secs = sections(line);
+    let mut benches = Vec::new();
+    let mut groups = Vec::new();
+    let mut opts: HashMap<String, Option<divan::__private::BenchOptions<'static>>> = HashMap::new();
+    for (n, tok) in section(&secs, "E").iter().enumerate() {
+        let f: Vec<&str> = tok.split('/').collect();
+        let line_no = n as u32 + 1;
+        opts.insert(f[3].to_owned(), crate::opts::parse_level(f[4]));
+        match f[0] {
+            "b" => benches.push(&*Box::leak(Box::new(BenchEntry {
+                meta: meta(f[1], f[2], f[3], line_no),
+                bench: BenchEntryRunner::Plain(plain),
+            }))),
+            "g" => groups.push(&*Box::leak(Box::new(GroupEntry { meta: meta(f[1], f[2], f[3], line_no), generic_benches: None }))),
+            other => panic!("bad entry kind {other}"),
+        }
+    }
+    let runner = section(&secs, "R").first().and_then(|s| crate::opts::parse_level(s)).unwrap_or_default();
+    let dump = v::tree_dump(&benches, &groups, None, None);
+    let mut out = String::from("D");
+    for l in &dump {
+        out.push(' ');
+        out.push_str(&l.split('\t').collect::<Vec<_>>().join("/"));
+    }
+    out.push_str(" #O");
+    // walk the dump: stack of the options inherited at each depth
+    let mut stack: Vec<Option<divan::__private::BenchOptions<'static>>> = Vec::new();
+    for l in &dump {
+        let f: Vec<&str> = l.split('\t').collect();
+        let depth: usize = f[0].parse().unwrap();
+        stack.truncate(depth);
+        let parent = stack.last().cloned().flatten();
+        let own = if f[1] == "P" { None } else { opts.get(f[2]).cloned().flatten() };
+        let here = match (parent, own) {
+            (None, None) => None,
+            (Some(p), None) => Some(p),
+            (None, Some(c)) => Some(c),
+            (Some(p), Some(c)) => Some(crate::opts::detach(&v::options_overwrite(&c, &p))),
+        };
+        if f[1] == "L" {
+            let resolved = match &here {
+                None => runner.clone(),
+                Some(e) => crate::opts::detach(&v::options_overwrite(&runner, e)),
+            };
+            out.push(' ');
+            out.push_str(f[2]);
+            out.push(':');
+            out.push_str(&crate::opts::show(&resolved).replace(' ', ","));
+        }
+        stack.push(here);
+    }
+    out
+}
